@@ -157,6 +157,16 @@ def check_case(case, ctx):
             return {"nontrivial": False, "classes": classes + ["moma-needs-wt-optimum"]}
         ref_sol = model.optimize()
         reference = {rid: float(ref_sol.fluxes[rid]) for rid in ref_sol.fluxes.index}
+        # the reference is labelled data: its entries may come in any order (a solution of a rebuilt or re-sorted model,
+        # a re-indexed frame); two cases in three hand it over reversed or sorted by identifier (since seeded change C06-9)
+        order = case["processes"] + len(spec["rxns"]) + len(case.get("background") or [])
+        if order % 3 == 1:
+            ref_sol.fluxes = ref_sol.fluxes.iloc[::-1]
+            ref_sol.reduced_costs = ref_sol.reduced_costs.iloc[::-1]
+            classes.append("~reference-reversed")
+        elif order % 3 == 2:
+            ref_sol.fluxes = ref_sol.fluxes.sort_index()
+            classes.append("~reference-sorted")
         kwargs["solution"] = ref_sol
         before = observe.snapshot(model)
     if double:
